@@ -265,7 +265,7 @@ def modcovar(x, order):
 
     Cz = np.dot(X1.conj().transpose(), Xc)
     e = np.dot(X1.conj().transpose(), X1) + np.dot(Cz, a)
-    assert e.imag < 1e-4, 'wierd behaviour'
+    assert abs(e.imag) < 1e-4 * max(1., abs(e.real)), 'wierd behaviour'
     e = float(e.real) # ignore imag part that should be small
 
     return a, e
